@@ -1,5 +1,6 @@
 import MoqModel.Preds
 import MoqModel.AllocLemmas
+import MoqModel.ScopeLemmas
 /-
   C12 — parameter and result identifiers never collide or capture.
 
@@ -138,5 +139,33 @@ theorem c12_id_ID_witness :
 theorem c12_nil_witness :
     methodNamesOK ⟨s%"", s%"", [], [], []⟩ false ⟨s%"M", [⟨s%"nil", .basic s%"int", []⟩], 1, false⟩ = false := by
   decide +kernel
+
+/-- **one step of `AddVar` keeps the names of the method scope pairwise distinct** – for every
+    registry, scope, variable, type and map order – under the two side conditions that name the
+    only two ways the Go code can produce a duplicate: (R) a retro-active `MoqParam` rename lands
+    on a name already there (`RenamesFresh`), (N) the numbering renames the old holder to `…1` and
+    hands out `…2` without looking.  Not `_partial`: the numbering loop, the retro-active renames
+    and the `MoqParam` escape are all covered; the side conditions are decidable on the scope. -/
+theorem c12_step_distinct (o : Ord) (r1 : Registry) (sc sc' : Scope) (paths : List Str) (vname : Str) (t : Ty)
+    (suffix : Str)
+    (hnd : (names sc.vars).Nodup)
+    (hR : RenamesFresh sc.vars ((o.st paths).map r1.qualOf))
+    (hN : ∀ n1, n1 ++ Str.ofNat 1 ∉ names (resolveImportVarConflicts sc.vars ((o.st paths).map r1.qualOf)) →
+            n1 ∈ names (resolveImportVarConflicts sc.vars ((o.st paths).map r1.qualOf)) →
+            n1 ++ Str.ofNat 2 ∉ names (resolveImportVarConflicts sc.vars ((o.st paths).map r1.qualOf)))
+    (h : nameVar o r1 sc paths vname t suffix = .ok sc') :
+    (names sc'.vars).Nodup :=
+  nameVar_nodup o r1 sc sc' paths vname t suffix hnd hR hN h
+
+/-- non-vacuity of (R) and (N): the third unnamed string of `M(string, string, string)` -/
+example :
+    (nameVar Ord.id ⟨s%"", s%"", [], [], []⟩ ⟨[⟨s%"s1", .basic s%"string", []⟩, ⟨s%"s2", .basic s%"string", []⟩], [s%"s"]⟩ [] [] (.basic s%"string") []).toOption.map
+      (fun sc => names sc.vars) = some [s%"s1", s%"s2", s%"s3"] := by decide +kernel
+
+/-- (N) cannot be dropped: with a user-written `s2` in the scope, the second unnamed string is
+    handed `s2` again (the loop checks `s1`, renames `s` to it, and returns `s2` unchecked) -/
+theorem c12_unchecked_two_witness :
+    (nameVar Ord.id ⟨s%"", s%"", [], [], []⟩ ⟨[⟨s%"s2", .basic s%"string", []⟩, ⟨s%"s", .basic s%"string", []⟩], []⟩ [] [] (.basic s%"string") []).toOption.map
+      (fun sc => names sc.vars) = some [s%"s2", s%"s1", s%"s2"] := by decide +kernel
 
 end Moq
